@@ -140,6 +140,7 @@ class State:
         self.resume_cut = None
         self.entry_id = 0
         self.alloc_count = {}
+        self.decided = {}
 
     def fork(self):
         s = State(self.run)
@@ -162,6 +163,7 @@ class State:
         s.resume_cut = self.resume_cut
         s.alloc_count = dict(self.alloc_count)
         s.entry_id = self.entry_id
+        s.decided = dict(self.decided)
         return s
 
     def oblige(self, kind, site, goal, descr=""):
